@@ -2,7 +2,7 @@
 # Runs every claimed property's thorough tier, one after the other (for `vp run`).
 cd "$(dirname "$0")/.."
 # in a `vp run --with-repo` the repository snapshot is used, so that seeded patches applied to /repo meanwhile do not leak in
-if [ -n "$VP_RUN_REPO" ]; then export VERIF_REPO="$VP_RUN_REPO"; fi
+if [ -n "$VP_RUN_REPO" ]; then export VERIF_REPO="$VP_RUN_REPO"; export VERIF_OUT="$PWD"; fi
 ./setup.sh
 PROPS="${VERIF_PROPS:-$(python3 -c "import json;print(' '.join(sorted(json.load(open('checks.json')))))")}"
 for p in $PROPS; do
